@@ -83,6 +83,11 @@ CLAIMED = {
    note="Trusted: spec.rs ack encoding, the tee (harness code) as the observation of the wire, fstat/fdinfo identities. Protocol-invalid arguments (nil / all-ones UUID, zero or wrapping lengths, undefined flags) are outside the claim and not generated; raw error code i32::MIN is excluded.",
    technique="model-based property testing with proptest histories across both real endpoints and a recording tee",
    ref="DESIGN.md section 3, C18"),
+ "C19": dict(level="exploration",
+   text="Differential testing of every trait operation of the four kernel back ends (blanket VhostBackend impl through a test VhostKernBackend type, Net, Vsock, VhostKernVdpa with all VhostVdpa operations, VhostKernFeatures, IOTLB messages v1/v2 with every type x permission) against the Linux UAPI: the harness binary defines ioctl() itself, records request number and argument bytes of every vhost ioctl the library issues on a dummy descriptor and plays the kernel (writes generated bytes back for _IOR/_IOWR); a C program compiled at check time against <linux/vhost.h> supplies the request numbers (direction, type, nr, size) and the sizeof/offsetof of every argument struct. 100k generated calls in quick plus an enumeration of region-table sizes 0..257; ring configurations with zero / non-power-of-two / over-maximum size or a log flag without address must be refused before any ioctl; host addresses handed to the kernel are recomputed independently from the region list.",
+   note="Trusted: the system UAPI headers and ckern/uapi.c, the in-binary ioctl interposition (the real kernel is not involved: 'returns what the kernel wrote back' is judged against the fake), SOCK_SEQPACKET read-back of IOTLB writes. Structure padding in IOTLB messages has no defined content and is not compared.",
+   technique="differential property testing against the kernel UAPI headers via ioctl interposition",
+   ref="DESIGN.md section 3, C19"),
  "C20": dict(level="exploration",
    text="Exhaustive enumeration of a boundary lattice per message type (about 9.5 million bit patterns, complete for the lattice) plus random 64-bit patterns, each judged in both directions against an independent predicate written from the property text in u128 arithmetic. Validators are pure functions of a few integer fields whose rules only have boundaries at the lattice points, so lattice-exhaustive + random search is the right level; it is not a proof over all 2^k patterns.",
    note="Trusted: refpred.rs (hand-written from the property/spec), the verif-hooks accessors that expose the private header validators. Bit patterns the rules leave open (range ending exactly at 2^64, padding word of the single-region body, inflight mmap_size==0) are accepted either way and counted as spec_silent.",
